@@ -4,6 +4,8 @@
 //!        getpath | getvec | raw n | getobs | getcf | getmethod | getstatus | code
 //!   ACC view <pkt>        coap-message 0.2 and 0.3 read views
 //!   ACC copy <pkt>        set_from_message through 0.2 and through 0.3 into a fresh Packet
+//!   ACC wadd <cl> <n:val,...> <code> <payload> <pkt>   write through MinimalWritableMessage (0.2 | 0.3) onto an
+//!                         EXISTING message: add_option in the given (arbitrary) order, set_code, set_payload
 use crate::pkt::{dump, parse_val, val_token, CodeSpec, PktSpec};
 use crate::uint::utf8_ok;
 use crate::{guarded, hex, Ctx, Rng};
@@ -261,6 +263,59 @@ pub fn view_case(cx: &mut Ctx, spec: &PktSpec, cleared: &[u16]) {
                 if view02(q) != want {
                     cx.oracle_fail("C19", &line, &format!("message copied through the generic interface shows {} instead of {}", view02(q), want));
                 }
+            }
+        }
+    }
+}
+
+
+/// writes through the generic interface onto a message that already has content: options added in
+/// any order (Packet is seek-writable), code and payload set; must equal the native calls
+pub fn wadd_case(cx: &mut Ctx, spec: &PktSpec, cleared: &[u16], adds: &[(u16, Vec<u8>)], code: u8, payload: &[u8]) {
+    let cl = if cleared.is_empty() { "_".to_string() } else { cleared.iter().map(|n| n.to_string()).collect::<Vec<_>>().join(",") };
+    let at = if adds.is_empty() { "_".to_string() } else { adds.iter().map(|(n, v)| format!("{}:{}", n, val_token(v))).collect::<Vec<_>>().join(",") };
+    let line = format!("ACC wadd {} {} {} {} {}", cl, at, code, val_token(payload), spec.line());
+    let build = || {
+        let mut p = spec.build();
+        for n in cleared {
+            p.clear_option(CoapOption::from(*n));
+        }
+        p
+    };
+    let r = guarded(|| {
+        let mut a = build();
+        {
+            use coap_message::MinimalWritableMessage;
+            for (n, v) in adds {
+                MinimalWritableMessage::add_option(&mut a, CoapOption::from(*n), v);
+            }
+            MinimalWritableMessage::set_code(&mut a, MessageClass::from(code));
+            MinimalWritableMessage::set_payload(&mut a, payload);
+        }
+        let mut b = build();
+        {
+            use coap_message_0_3::MinimalWritableMessage;
+            for (n, v) in adds {
+                MinimalWritableMessage::add_option(&mut b, CoapOption::from(*n), v).unwrap();
+            }
+            MinimalWritableMessage::set_code(&mut b, MessageClass::from(code));
+            MinimalWritableMessage::set_payload(&mut b, payload).unwrap();
+        }
+        let mut native = build();
+        for (n, v) in adds {
+            native.add_option(CoapOption::from(*n), v.clone());
+        }
+        native.header.code = MessageClass::from(code);
+        native.payload = payload.to_vec();
+        (a, b, native)
+    });
+    match &r {
+        None => cx.case(&line, "panic"),
+        Some((a, b, native)) => {
+            cx.case(&line, &format!("{} | {}", dump(a), dump(b)));
+            cx.nontrivial(&line);
+            if spec.tok.len() <= 15 && (dump(a) != dump(native) || dump(b) != dump(native)) {
+                cx.oracle_fail("C19", &line, &format!("written through the generic interface: {} / {}, through the native calls: {}", dump(a), dump(b), dump(native)));
             }
         }
     }
@@ -568,7 +623,29 @@ pub fn run(cx: &mut Ctx) {
         let pl = rng.below(6) as usize;
         let spec = PktSpec { vtt: 0x40 | tkl as u8, code, mid: rng.below(65536) as u16, tok: rng.bytes(tkl), opts, payload: rng.bytes(pl) };
         view_case(cx, &spec, &cleared);
-    }    // in-place writes through MutableWritableMessage (both trait versions)
+        // … and written to through the generic interface: options added in arbitrary order onto the
+        // existing content (numbers already present, numbers below / between / above the present ones)
+        let nadd = rng.below(4) as usize;
+        let mut adds = vec![];
+        for _ in 0..nadd {
+            let num = *rng.pick(&[1u16, 4, 6, 11, 11, 12, 15, 23, 27, 60, 258, 300, 65535, 0]);
+            let k = rng.below(4) as usize;
+            adds.push((num, rng.bytes(k)));
+        }
+        let pl2 = rng.below(4) as usize;
+        let pay2 = rng.bytes(pl2);
+        wadd_case(cx, &spec, &cleared, &adds, *rng.pick(&[0x45u8, 1, 0, 0x84]), &pay2);
+    }
+    // directed: a Uri-Path segment added through the generic interface to a request that already has a
+    // path and a higher-numbered option; an option repeated below the highest present number
+    for ver_opts in [vec![(11u16, b"sensors".to_vec()), (11, b"temp".to_vec()), (12, vec![50])], vec![(4, vec![1]), (11, b"a".to_vec()), (15, b"q".to_vec()), (60, vec![9])]] {
+        let spec = PktSpec { vtt: 0x41, code: CodeSpec::Byte(1), mid: 7, tok: vec![1], opts: ver_opts.clone(), payload: vec![] };
+        for adds in [vec![(11u16, b"now".to_vec())], vec![(4, vec![2])], vec![(15, b"r".to_vec()), (11, b"z".to_vec())], vec![(12, vec![60])], vec![(1, vec![]), (65535, vec![1]), (11, vec![])]] {
+            wadd_case(cx, &spec, &[], &adds, 2, b"p");
+            wadd_case(cx, &spec, &[12], &adds, 2, b"");
+        }
+    }
+    // in-place writes through MutableWritableMessage (both trait versions)
     let nm = if thorough { 20000 } else { 4000 };
     for i in 0..nm {
         let tkl = rng.below(9) as usize;
